@@ -197,14 +197,21 @@ def run(ctx):
                     m = umap.UMAP(metric=metric, force_approximation_algorithm=True, **kw).fit(X)
                 elif form == "knn":
                     D32 = D.astype(np.float32)
-                    kidx, kdist = gen.exact_knn(D32, k)
-                    m = umap.UMAP(metric=metric, precomputed_knn=(kidx, kdist.astype(np.float32), None), **kw).fit(X)
+                    extra = int(rng.choice([0, 1, 3]))          # the table may be wider than n_neighbors: only its first k columns count
+                    kidx_w, kdist_w = gen.exact_knn(D32, min(k + extra, n))
+                    kidx, kdist = kidx_w[:, :k], kdist_w[:, :k]
+                    m = umap.UMAP(metric=metric, precomputed_knn=(kidx_w, kdist_w.astype(np.float32), None), **kw).fit(X)
+                    own_table = (kidx.copy(), kdist.astype(np.float32))
                 else:
                     m = umap.UMAP(metric="precomputed", **kw).fit(D.astype(np.float32))
         except Exception as e:  # noqa
             ctx.violation("exception", f"fit raised {type(e).__name__}: {e}", case)
             continue
-        if rec.calls:
+        if form == "knn":
+            # ground truth independent of what the implementation made of the table: the first k columns of the table we supplied
+            idx, dist = own_table
+            ctx.bin("distance_source", "supplied-table")
+        elif rec.calls:
             # the kNN table of the distance matrix the implementation actually used
             idx, dist = rec.table(0)
             ctx.bin("distance_source", "recorded")
@@ -216,6 +223,28 @@ def run(ctx):
             ctx.bin("distance_source", "recomputed")
         h = graph_line(drv, r, k, lc, idx, dist)
         pending.append((h, m, case, r, idx, dist, n))
+    # refit family: one estimator fitted twice on the same data with a graph-stage parameter changed in between must give what a
+    # fresh estimator with the final parameters gives (nothing may be carried over from the first fit)
+    for t in range(6 if ctx.thorough else 2):
+        n = int(rng.integers(40, 80))
+        X, _ = gen.dataset(rng, n, 5, kind="clusters")
+        k = int(rng.integers(4, 9))
+        first = dict(n_neighbors=k, metric="euclidean", random_state=3, n_epochs=0, init="random", force_approximation_algorithm=bool(t % 2 == 0))
+        change = [dict(metric="cosine"), dict(metric="minkowski", metric_kwds={"p": 1.0}), dict(disconnection_distance=float(np.quantile(pairwise_distances(X), 0.2)))][t % 3]
+        case = {"family": "refit", "n": n, "k": k, "first": {a: str(b) for a, b in first.items()}, "change": {a: str(b) for a, b in change.items()}, "X": X.tolist()}
+        try:
+            est = umap.UMAP(**first).fit(X)
+            est.set_params(**change)
+            g_refit = est.fit(X).graph_
+            g_fresh = umap.UMAP(**dict(first, **change)).fit(X).graph_
+        except Exception as e:  # noqa
+            ctx.violation("exception", f"refit raised {type(e).__name__}: {e}", case)
+            continue
+        if g_refit.shape != g_fresh.shape or (g_refit != g_fresh).nnz != 0:
+            ctx.violation("refit", f"refitting an estimator after set_params({change}) gives a different graph than a fresh estimator with the same parameters "
+                                   f"({(g_refit != g_fresh).nnz} entries differ)", case)
+        ctx.case(key="refit" + str(case["X"]) + str(change), nontrivial=True, part="refit", approx=first["force_approximation_algorithm"])
+
     outs = drv.run()
     for (h, m, case, r, idx, dist, n) in pending:
         model = parse_coo(outs[h])
